@@ -115,6 +115,10 @@ func Load() (*World, error) {
 	}
 	prog, _ := ssautil.AllPackages(pkgs, ssa.InstantiateGenerics)
 	prog.Build()
+	funcRenames = nil
+	if norm != nil {
+		funcRenames = norm.Renamed
+	}
 	w := &World{Repo: abs, Fset: prog.Fset, ByPath: by, Prog: prog, Norm: norm}
 	for _, p := range pkgs {
 		if strings.HasPrefix(p.PkgPath, Mod) {
@@ -208,8 +212,22 @@ func FuncName(fn *ssa.Function) string {
 			name = "(" + ptr + nt.Obj().Name() + ")." + name
 		}
 	}
-	return ShortPkg(p) + "." + name
+	full := ShortPkg(p) + "." + name
+	if len(funcRenames) > 0 {
+		if old, ok := funcRenames[strings.Replace(full, "(*", "(", 1)]; ok {
+			// report the function under the name the rules know it by (keeping the receiver's form)
+			i := strings.LastIndex(old, ".")
+			j := strings.LastIndex(full, ".")
+			if i >= 0 && j >= 0 {
+				return full[:j] + old[i:]
+			}
+		}
+	}
+	return full
 }
+
+// funcRenames: declared qualified name (normalize form, no '*') -> known name (set by Load).
+var funcRenames map[string]string
 
 // Func looks a module function up by its FuncName. Nil if absent.
 func (w *World) Func(name string) *ssa.Function { return w.byName[name] }
@@ -415,4 +433,20 @@ func (w *World) AnonAt(pos token.Pos) *ssa.Function {
 		}
 	}
 	return nil
+}
+
+// BaseName returns the unqualified name under which the rules know the function (a renamed
+// function is reported under its known name; see normalize.Result.Renamed).
+func BaseName(fn *ssa.Function) string {
+	if fn == nil {
+		return ""
+	}
+	if len(funcRenames) == 0 || fn.Parent() != nil {
+		return fn.Name()
+	}
+	n := FuncName(fn)
+	if i := strings.LastIndex(n, "."); i >= 0 {
+		return n[i+1:]
+	}
+	return fn.Name()
 }
